@@ -44,6 +44,7 @@ struct Out {
     inject_total: usize,
     asserts: usize,
     assert_accepted: usize,
+    graphs: usize,
 }
 
 impl Out {
@@ -636,6 +637,86 @@ fn unvalidated_tree(clauses: &[String]) -> Option<Value> {
     Some(json!({"Kml": {"explicit_transaction": true, "clauses": out}}))
 }
 
+
+// ------------------------------------------------------------------------------ handle graphs
+/// Enumerated multi-clause plans: every subset of 2..=3 of the clause templates below in every
+/// order, and every 4-subset of the first nine in every order.  The templates cover plan-output
+/// handles referenced before and after the clause that claims them (forward references), handles
+/// bound only by a clause's own WHERE, a handle bound only by a *sibling's* WHERE (must not
+/// resolve), a handle claimed twice, and a plan-output handle that a WHERE re-types as an Assertion.
+const GRAPH_TEMPLATES: &[&str] = &[
+    "CREATE CONCEPT ?a { TYPE \"T\" SET ATTRIBUTES { peer: ?b } }",
+    "CREATE CONCEPT ?b { TYPE \"T\" }",
+    "CREATE EVIDENCE ?e { }",
+    "ENSURE PROPOSITION ?p (?a, \"p\", ?b)",
+    "CREATE ASSERTION ?s { SET FIELDS { proposition: ?p, asserted_by: ?a } SET STRUCTURAL { (\"evidence\", ?e) {role: \"support\"} } }",
+    "UPDATE ?w SET ATTRIBUTES { seen: ?a } WHERE { ?w CONCEPT {id: \"C\"} }",
+    "UPDATE ?a SET ATTRIBUTES { x: 1 }",
+    "UPDATE ?w SET FIELDS { confidence: 0.1 }",
+    "ARCHIVE ?v WHERE { ?v ASSERTION {asserted_by: ?u} }",
+    "SUPERSEDE ASSERTION ?v BY ?s",
+    "UPSERT CONCEPT ?a { MATCH {key: \"k\"} }",
+    "UPDATE ?a SET FIELDS { confidence: 0.2 } WHERE { ?a ASSERTION {id: \"A\"} }",
+    "MERGE CONCEPT ?a INTO ?u WHERE { ?u {id: \"U\"} }",
+];
+
+fn permutations(items: &[usize], out: &mut Vec<Vec<usize>>) {
+    fn rec(cur: &mut Vec<usize>, rest: &mut Vec<usize>, out: &mut Vec<Vec<usize>>) {
+        if rest.is_empty() {
+            out.push(cur.clone());
+            return;
+        }
+        for i in 0..rest.len() {
+            let x = rest.remove(i);
+            cur.push(x);
+            rec(cur, rest, out);
+            cur.pop();
+            rest.insert(i, x);
+        }
+    }
+    rec(&mut Vec::new(), &mut items.to_vec(), out);
+}
+
+fn subsets(n: usize, k: usize) -> Vec<Vec<usize>> {
+    fn rec(start: usize, n: usize, k: usize, cur: &mut Vec<usize>, out: &mut Vec<Vec<usize>>) {
+        if cur.len() == k {
+            out.push(cur.clone());
+            return;
+        }
+        for i in start..n {
+            cur.push(i);
+            rec(i + 1, n, k, cur, out);
+            cur.pop();
+        }
+    }
+    let mut out = Vec::new();
+    rec(0, n, k, &mut Vec::new(), &mut out);
+    out
+}
+
+fn handle_graphs(o: &mut Out) {
+    let n = GRAPH_TEMPLATES.len();
+    let mut sets: Vec<Vec<usize>> = Vec::new();
+    sets.extend(subsets(n, 2));
+    sets.extend(subsets(n, 3));
+    sets.extend(subsets(9, 4));
+    for set in sets {
+        let mut orders = Vec::new();
+        permutations(&set, &mut orders);
+        for order in orders {
+            let cl: Vec<String> = order.iter().map(|i| GRAPH_TEMPLATES[*i].to_string()).collect();
+            let text = format!("MUTATE {{ {} }}", cl.join(" "));
+            o.graphs += 1;
+            let family = format!("graph/{}", order.len());
+            if o.text(&family, &text, true).is_none() {
+                if let Some(v) = unvalidated_tree(&cl) {
+                    o.inject(&family, &text, &v, true);
+                }
+            }
+        }
+    }
+}
+
 // ------------------------------------------------------------------------------ ASSERT
 fn asserts(o: &mut Out) {
     let by = [Some(":alice"), Some("?who"), Some("\"actor:1\""), None];
@@ -776,7 +857,7 @@ fn c16(args: &[String]) {
         w: std::io::BufWriter::new(std::fs::File::create(&out).expect("create out")),
         seen: BTreeSet::new(), trees: 0, accepted: BTreeMap::new(), rejected: BTreeMap::new(), failures: Vec::new(), failure_classes: BTreeMap::new(),
         oracle_failures: 0, texts: 0, text_accepted: 0, text_errors: BTreeMap::new(), families: BTreeMap::new(),
-        inject_total: 0, asserts: 0, assert_accepted: 0,
+        inject_total: 0, asserts: 0, assert_accepted: 0, graphs: 0,
     };
     std::panic::set_hook(Box::new(|_| {}));
     let mut seeds: Vec<(String, Value)> = Vec::new();
@@ -784,6 +865,7 @@ fn c16(args: &[String]) {
     selections(&mut o);
     guards(&mut o);
     injected(&mut o, &seeds);
+    handle_graphs(&mut o);
     plans(&mut o, &mut rng, n_plans);
     let pool: Vec<Value> = seeds.iter().map(|(_, v)| v.clone()).collect();
     mutate_trees(&mut o, &mut rng, &pool, n_mut);
@@ -794,7 +876,7 @@ fn c16(args: &[String]) {
         "injected": o.inject_total, "trees_written": o.trees,
         "accepted": o.accepted, "rejected": o.rejected,
         "families": o.families.len(), "seeds": seeds.len(),
-        "asserts": o.asserts, "assert_accepted": o.assert_accepted,
+        "asserts": o.asserts, "assert_accepted": o.assert_accepted, "graph_plans": o.graphs,
         "oracle_failures": o.oracle_failures, "failure_classes": o.failure_classes, "failures": o.failures,
         "evaluations": o.texts + o.inject_total + o.asserts,
     });
